@@ -121,8 +121,15 @@ def c18b(ctx, tu):
                 if isinstance(arg, list) and arg[:1] == ["member"]:
                     restored[mname] = erase(arg[1]).rsplit("::", 1)[-1]
         ok = restored == {"width": "width", "flags": "flags", "fill": "fill"}
-        ctx.ob("C18.b", SENTRY + "::~stream_sentry", ok, pattern=fn.pat, unit=tu.name,
-               detail="" if ok else "the sentry must restore width, flags and fill from what it saved; it restores %s" % restored)
+        why = "the sentry must restore width, flags and fill from what it saved; it restores %s" % restored
+        if ok:
+            # ... on every path: whatever ran under the sentry may have changed any of them
+            for b, i, e in cfg.find_events(fn, lambda e: e["e"] == "call" and "stream_sentry::os" in str(e.get("recv"))):
+                if fn.exit in cfg.reach(fn, fn.entry, avoid_blocks={b}):
+                    ok = False
+                    why = "the restore of %s is conditional: code that ran under the sentry may have changed it " \
+                          "(hexdump sets fill and base), so it must be restored on every path" % qe(e).rsplit("::", 1)[-1]
+        ctx.ob("C18.b", SENTRY + "::~stream_sentry", ok, pattern=fn.pat, unit=tu.name, detail="" if ok else why)
 
 
 def c18c(ctx, tu):
